@@ -673,7 +673,7 @@ def check_cumdos(case):
 # machine) so that the compile time is not charged to the budget of the large pure-function subs
 SUBS = [
     Sub("cumdos", _cumdos_strategy(), check_cumdos, quick=40, thorough=640, budget_quick=80, budget_thorough=420),
-    Sub("weights", weights_case_st, check_weights, quick=6000, thorough=240000, budget_quick=120, budget_thorough=420),
-    Sub("paral", paral_st, check_paral, quick=600, thorough=16000, budget_quick=50, budget_thorough=420),
-    Sub("groups", groups_st, check_groups, quick=1200, thorough=40000, budget_quick=50, budget_thorough=420),
+    Sub("weights", weights_case_st, check_weights, quick=5000, thorough=240000, budget_quick=120, budget_thorough=420),
+    Sub("paral", paral_st, check_paral, quick=480, thorough=16000, budget_quick=50, budget_thorough=420),
+    Sub("groups", groups_st, check_groups, quick=960, thorough=40000, budget_quick=50, budget_thorough=420),
 ]
